@@ -219,6 +219,49 @@ def expand_crate_paths(s):
     return re.sub(r"\$CRATE\{([^}]+)\}", lambda m: crate_dir(m.group(1)), s)
 
 
+_binders = None
+
+
+def recorded_binders():
+    """recipes/binders.json: for each function under contract, the names of its local binders (source order) on the tree the recipe was
+    written against.  The extractor renames binders that were renamed since back to these names (R26, a capture-free alpha-conversion,
+    applied only when the two lists have the same shape), so that a recipe's invariants, which name locals, survive a renamed local."""
+    global _binders
+    if _binders is None:
+        try:
+            _binders = json.load(open(os.path.join(VERIF, "recipes", "binders.json")))
+        except (OSError, ValueError):
+            _binders = {}
+    return _binders
+
+
+def record_binders():
+    """`vx binders`: write recipes/binders.json from the CURRENT tree (to be run on the tree the recipes were written against)"""
+    out = {}
+    for n in all_units():
+        u = parse_unit(n)
+        items, keys = [], []
+        for s in u.sections:
+            if s.kind == "fn":
+                it = {"kind": "fn", "file": s.file, "name": s.name}
+                if s.impl:
+                    it["impl"] = s.impl
+                it.update(s.opts)
+                it.pop("binders", None)
+                items.append(it)
+                keys.append("%s|%s|%s" % (n, s.file, s.name))
+        if not items:
+            continue
+        req = {"repo": REPO, "items": items}
+        req.update(u.glob)
+        for k, r in zip(keys, call_extract(req)):
+            if r.get("ok") and r.get("binders"):
+                out[k] = r["binders"]
+    json.dump(out, open(os.path.join(VERIF, "recipes", "binders.json"), "w"), indent=0, sort_keys=True)
+    print("recorded the binders of %d functions" % len(out))
+    return 0
+
+
 def call_extract(req):
     if not os.path.exists(EXTRACT):
         raise Undecided("tool error: %s not built (run MANIFEST.setup_cmd)" % EXTRACT)
@@ -448,6 +491,9 @@ def assemble(unit, twin=False):
             if s.impl:
                 it["impl"] = s.impl
             it.update(s.opts)
+            rec = recorded_binders().get("%s|%s|%s" % (unit.name.replace("_dev", ""), s.file, s.name))
+            if rec is not None and not os.environ.get("VX_NO_BINDERS"):
+                it["binders"] = rec
             items.append(it)
     req = {"repo": REPO, "items": items}
     req.update(unit.glob)
@@ -1256,6 +1302,8 @@ def main(argv):
         return cmd_unit(argv[1:])
     if cmd == "show":
         return cmd_show(argv[1:])
+    if cmd == "binders":
+        return record_binders()
     if cmd == "replay":
         from vxreplay import replay_file
         return replay_file(argv[1])
